@@ -233,9 +233,12 @@ def schedule_case(draw):
     # (an empty set asks for the size alone: size-only entries)
     algs = draw(st.lists(st.sampled_from(FIXED_ALGS), min_size=0, max_size=4,
                          unique=True))
+    if algs and draw(st.integers(0, 4)) == 0:
+        # the same name requested more than once
+        algs = algs + [algs[0]] * draw(st.integers(1, 2))
     salt = draw(st.integers(0, 1000))
     return {'len': n, 'schedule': schedule, 'hint': hint, 'kind': kind,
-            'algs': sorted(algs), 'salt': salt}
+            'algs': algs, 'salt': salt}
 
 
 def strat_schedules(tier):
@@ -273,6 +276,8 @@ def file_case(draw):
         n = draw(st.sampled_from([1048575, 1048576, 1048577]))
     names = draw(st.lists(st.sampled_from(list(R.USABLE_HASHES)),
                           min_size=0, max_size=5, unique=True))
+    if names and draw(st.integers(0, 5)) == 0:
+        names = names + [names[-1]]     # one name twice
     return {'len': n, 'names': names, 'salt': draw(st.integers(0, 1000)),
             'coreutils': draw(st.integers(0, 9)) == 0}
 
@@ -325,6 +330,17 @@ def run_file(desc):
         if got['__size__'] != len(data):
             return violation(f'hash_path __size__ = {got["__size__"]}',
                              sig='wrong-size')
+        # hash_file on the real file object, with right and wrong size hints
+        for hint in sorted({0, len(data), max(0, len(data) - 1),
+                            len(data) + 1, 1048576, 1048577, 65536}):
+            with open(path, 'rb') as f:
+                got = hash_file(f, algs + ['__size__'], _apparent_size=hint)
+            bad = [a for n, a in zip(names, algs) if got[a] != exp[n]]
+            if bad or got['__size__'] != len(data):
+                return violation(
+                    f'hash_file(real file of {len(data)} bytes, hint={hint}) '
+                    f'gives size {got["__size__"]} and wrong digests for '
+                    f'{bad}', sig='wrong-size' if not bad else 'wrong-digest')
         # CLI
         buf = io.StringIO()
         with contextlib.redirect_stdout(buf):
@@ -332,7 +348,7 @@ def run_file(desc):
                                   path])
         toks = buf.getvalue().split()
         want = ['DATA', path, str(len(data))]
-        for n in sorted(names):
+        for n in sorted(set(names)):
             want += [n, exp[n]]
         if rc not in (0, None) or toks != want:
             return violation(
